@@ -177,6 +177,69 @@ def rotationGuard (dim : Int) (axisN : Nat) : G :=
 def rotationReads (dim : Int) (axis : List Rat) : List (Option Rat) :=
   if dim = 3 then [axis[0]?, axis[1]?, axis[2]?] else []
 
+/-! ### Objects with state: a history of mutators and guarded requests on ONE Vector / Matrix.
+    The model tracks just the shape; every guard is the guard above evaluated on the CURRENT shape. -/
+
+inductive MatOp where
+  | resize (r c : Nat)     -- `Resize(r,c)`
+  | assign (r c : Nat)     -- `Assign(r,c,entry)`
+  | set (r c : Nat)        -- `operator=` from a fresh `r × c` matrix
+  | delRow (i : Nat)       -- `Delete_Row(i)`
+  | delCol (j : Nat)       -- `Delete_Column(j)`
+  | at (i : Nat)           -- `M[i][j]` with a meaningful inner index `j < columns` (the inner index is a plain std::vector index)
+  | sum (r c : Nat)        -- `Plus / Minus / += / -=` with an `r × c` operand
+  | prod (r c : Nat)       -- `Product` with an `r × c` matrix
+  | prodv (n : Nat)        -- `Product` with an `n`-vector
+  | trace                  -- `Trace()`
+  | transpose              -- `Transpose()` (unguarded: reads every entry of the current shape)
+  | row (i : Nat)          -- `Return_Row(i)`
+  | col (j : Nat)          -- `Return_Column(j)`
+
+/-- the guard of one request on a matrix whose current shape is `s = (rows, columns)` -/
+def matOpGuard (s : Nat × Nat) : MatOp → G
+  | .resize _ _ | .assign _ _ | .set _ _ | .transpose => pass
+  | .delRow i | .row i => matRowGuard s.1 i
+  | .delCol j | .col j => matColGuard s.2 j
+  | .at i => matIndexGuard s.1 i
+  | .sum r c => matSumGuard s.1 s.2 r c
+  | .prod r c => matProdGuard s.1 s.2 r c
+  | .prodv n => matVecGuard s.1 s.2 n
+  | .trace => squareGuard s.1 s.2
+/-- the shape after an accepted request -/
+def matOpShape (s : Nat × Nat) : MatOp → Nat × Nat
+  | .resize r c | .assign r c | .set r c => (r, c)
+  | .delRow _ => (s.1 - 1, s.2)
+  | .delCol _ => (s.1, s.2 - 1)
+  | _ => s
+def matHistGuard : Nat × Nat → List MatOp → G
+  | _, [] => pass
+  | s, op :: ops =>
+    match matOpGuard s op with
+    | .error _ => stop
+    | .ok _ => matHistGuard (matOpShape s op) ops
+def matShapeAfter (s : Nat × Nat) (ops : List MatOp) : Nat × Nat := ops.foldl matOpShape s
+
+inductive VecOp where
+  | resize (n : Nat) | assign (n : Nat) | set (n : Nat)     -- `Resize`, `Assign`, `operator=`
+  | at (i : Nat)                                             -- `v[i]`
+  | pair (n : Nat)                                           -- `Dot / + / - / += / -=` with an `n`-vector
+  | cross (n : Nat)                                          -- `Cross` with an `n`-vector
+def vecOpGuard (d : Nat) : VecOp → G
+  | .resize _ | .assign _ | .set _ => pass
+  | .at i => vecIndexGuard d i
+  | .pair n => vecPairGuard d n
+  | .cross n => crossGuard d n
+def vecOpDim (d : Nat) : VecOp → Nat
+  | .resize n | .assign n | .set n => n
+  | _ => d
+def vecHistGuard : Nat → List VecOp → G
+  | _, [] => pass
+  | d, op :: ops =>
+    match vecOpGuard d op with
+    | .error _ => stop
+    | .ok _ => vecHistGuard (vecOpDim d op) ops
+def vecDimAfter (d : Nat) (ops : List VecOp) : Nat := ops.foldl vecOpDim d
+
 /-! ## 3. Interpolation (src/Numerics.cpp §1) — shared model `Lp.Interp` -/
 
 /-- a valid abscissa list in the simplest form: at least three points, every earlier point
